@@ -51,6 +51,17 @@ fn outlives_named<'a, 'b, D>(_deps: &D, a: &'a str, _b: &'b str) -> &'a str wher
 #[entrait(OutlivesImpl)]
 fn outlives_impl<'a, T>(_deps: &impl Named, x: &'a [T]) -> &'a T where T: 'a + Clone, for<'x> &'x T: Sized { &x[0] }
 
+// further parameters written as destructuring patterns whose single binding carries a binding mode
+// (`mut`, `ref`, `@`): the bodiless trait method cannot keep the mode (seed R14C03)
+pub struct Wrapper(pub Vec<u8>);
+pub struct Point { pub x: u32, pub y: u32 }
+#[entrait(PatMut)]
+fn pat_mut(_deps: &impl Named, Wrapper(mut items): Wrapper, (mut n, _): (u32, u32)) -> (Vec<u8>, u32) { items.push(1); n += 1; (items, n) }
+#[entrait(PatRef)]
+fn pat_ref<D: Nums>(_deps: &D, Point { ref x, .. }: Point, [whole @ _, _]: [u8; 2]) -> (u32, u8) { (*x, whole) }
+#[entrait(PatAsync, no_deps)]
+async fn pat_async(Point { ref mut y, .. }: Point, &(ref s, _): &(String, u8)) -> (u32, usize) { *y += 1; (*y, s.len()) }
+
 #[entrait(pub ModTrait)]
 mod m {
     pub fn first<D: super::Named>(deps: &D, n: usize) -> String { deps.name().repeat(n) }
@@ -90,6 +101,10 @@ fn main() {
     same!("mod.second", m::second(&app, &9u8), app.second(&9u8));
     same!("outlives_named", outlives_named(&app, "p", "q"), app.outlives_named("p", "q"));
     same!("outlives_impl", outlives_impl(&app, &[4u8, 5]), app.outlives_impl(&[4u8, 5]));
-    println!("C03-PROBE cases=14 failed={bad}");
+    same!("pat_mut", pat_mut(&app, Wrapper(vec![7]), (1, 2)), app.pat_mut(Wrapper(vec![7]), (1, 2)));
+    same!("pat_ref", pat_ref(&app, Point { x: 3, y: 4 }, [5, 6]), app.pat_ref(Point { x: 3, y: 4 }, [5, 6]));
+    let pair = (String::from("ab"), 0u8);
+    same!("pat_async", block_on(pat_async(Point { x: 3, y: 4 }, &pair)), block_on(app.pat_async(Point { x: 3, y: 4 }, &pair)));
+    println!("C03-PROBE cases=17 failed={bad}");
     std::process::exit(if bad == 0 { 0 } else { 1 });
 }
